@@ -5,6 +5,7 @@ CONSTANT ChunkSizes = {0, 2}
 CONSTANT MaxRows = 5
 CONSTANT SampleMod = 48
 CONSTANT SamplePick = 0
+CONSTANT PreModes = {"none", "all"}
 SPECIFICATION Spec
 INVARIANT TypeOK
 INVARIANT Deposits
